@@ -60,7 +60,7 @@ Definition absCompare_u32 (a b : Z) : Z := mpz_cmpabs_ui a (u32_to_u64 b).
 (*@ absCompare_i64 | src/kernel/gmp++/gmp++_int_compare.C | int32_t absCompare(const Integer &a, const int64_t b) | 17b3f3080ba9 *)
 Definition absCompare_i64 (a b : Z) : Z := mpz_cmpabs_ui a (to_u64 (abs_i64 b)).
 (* repaired body (frag/C01.fix-2.diff): widen to int64_t first, then std::abs *)
-(*@ absCompare_i32 | src/kernel/gmp++/gmp++_int_compare.C | int32_t absCompare(const Integer &a, const int32_t b) | 1a1e10f6ef1c *)
+(*@ absCompare_i32 | src/kernel/gmp++/gmp++_int_compare.C | int32_t absCompare(const Integer &a, const int32_t b) | 7467ea1c6333 *)
 Definition absCompare_i32 (a b : Z) : Z := mpz_cmpabs_ui a (to_u64 (abs_i64 (i32_to_i64 b))).
 (* the body before the repair: std::abs on the int (wraps at INT32_MIN), THEN the cast to uint64_t (sign-extends) *)
 Definition absCompare_i32_tree (a b : Z) : Z := mpz_cmpabs_ui a (to_u64 (abs_i32 b)).
@@ -327,10 +327,10 @@ Definition opXor_u32 (x a : Z) : Z := let res := ctor_copy x in opXorEq_u32 res 
 (*@ opOr_u32 | src/kernel/gmp++/gmp++_int_misc.C | Integer Integer::operator| (const uint32_t& a) const | c02b1fbdb1b1 *)
 Definition opOr_u32 (x a : Z) : Z := let res := ctor_copy x in opOrEq_u32 res a.
 (* repaired bodies (frag/C01.fix-3.diff): the low limb of |x|, negated mod 2^64 for a negative x, is and-ed with a *)
-(*@ opAnd_u64 | src/kernel/gmp++/gmp++_int_misc.C | uint64_t Integer::operator& (const uint64_t & a) const | 0 *)
+(*@ opAnd_u64 | src/kernel/gmp++/gmp++_int_misc.C | uint64_t Integer::operator& (const uint64_t & a) const | 75fd9b22fe44 *)
 Definition opAnd_u64 (x a : Z) : Z :=
   let low := mpz_get_ui x in and_u64 (if priv_sign x <? 0 then neg_u64 low else low) a.
-(*@ opAnd_u32 | src/kernel/gmp++/gmp++_int_misc.C | uint32_t Integer::operator& (const uint32_t& a) const | 0 *)
+(*@ opAnd_u32 | src/kernel/gmp++/gmp++_int_misc.C | uint32_t Integer::operator& (const uint32_t& a) const | 7260f4d55f77 *)
 Definition opAnd_u32 (x a : Z) : Z :=
   let low := mpz_get_ui x in to_u32 (and_u64 (if priv_sign x <? 0 then neg_u64 low else low) (u32_to_u64 a)).
 (* the bodies before the repair: the low limb of |x| is and-ed with a (for x < 0 not the two's-complement AND that
